@@ -134,7 +134,14 @@ def judge(ctx, idx, case):
     problems = []
     box = tempfile.mkdtemp(prefix="case-", dir=ctx.root)
     try:
+        from pv import findings
+        rdf_reading_is_order_dependent = "KF-C07-1" in findings.OPEN and bool(findings._kf_c07_groups(case))
         for fmt in ("json", "xml", "rdf", "provn"):
+            if fmt == "rdf" and rdf_reading_is_order_dependent:
+                # open finding KF-C07-1 (C07): what the PROV-O reader makes of such a document depends on triple order, so two
+                # readings of the same text may differ; the RDF cells of this document are not judged here
+                ctx.count("skipped.rdf_cells.known_finding_KF-C07-1")
+                continue
             try:
                 outs, path = write_all(doc, fmt, box)
             except Exception as e:
